@@ -11,7 +11,7 @@ from ..util import all_shapes, fmt_vec, HookAcc, Tok, hexf
 CLAIM = dict(
     technique="runtime monitoring: sanitizer-instrumented execution of every selecting/replicating/joining/generating view on label arrays, NumPy reference oracle (documented nested-loop definitions for pad/resize/expand, first validated against the shipped test vectors) over recorded (shape, dtype, every element)",
     text="tile, repeat, roll, take, compress, pad, resize, expand, sliding_window, concatenate, stack, hstack, vstack, dstack, column_stack, split, diagonal, diagflat, tril, triu, where, arange, linspace, eye, identity, tri, full/zeros/ones(_like) are executed on dynamic ndarrays carrying unique labels (distinct label ranges per operand, fill values outside every label range) for all source shapes of dim 1..3 extents 1..3 (thorough: dim 1..4 extents 1..4 plus sampled larger) and the quantifier's argument grids (reps/repeats 1..3, shifts in [-2n,2n] single and multi axis, pad widths 0..2 per side, index lists with negative and repeated entries, every valid positive/negative axis and None, integer and dyadic-real generator grids); shape, element type and every element read lazily through view(i...) are compared with the reference. ASan/UBSan/libstdc++ assertions and the bounds hooks watch the same executions. Held-on-observed.",
-    note="Trusted: NumPy as the reference; the pad/resize/expand models (32 shipped vectors of the repository reproduce them); the harness' own odometer for element reads. Only run-time argument kinds (nmtools_list<int>, int, None) are exercised - other kinds are C09's business; invalid arguments are C15's.",
+    note="Trusted: NumPy as the reference; the pad/resize/expand models (32 shipped vectors of the repository reproduce them); the harness' own odometer for element reads. Run-time argument kinds (nmtools_list<int>, int, None), plus compile-time axes (meta::ct_v<k>) for take / repeat / roll / concatenate / diagonal on a source of compile-time dimension 3 and on a dynamic source - the remaining kinds are C09's business; invalid arguments are C15's.",
     ref="DESIGN.md 4/C04")
 HARNESS = ["c04_a", "c04_b", "c04_c", "c04_d", "c04_e", "c04_f", "c04_g", "c04_ct"]
 
